@@ -108,10 +108,20 @@ def build_tu(o, canary=False, witness=False):
         parts.append('#define BUF_N %d' % bufn)
     parts.append('#include "%s/model/base.h"' % VERIF)
     parts.append('#include "%s/model/simd.h"' % VERIF)
-    parts.append('const char *g_p; const char *g_q; size_t g_k; size_t g_k2;\n#ifdef BUF_N\nchar g_buf[BUF_N], g_buf2[BUF_N];\n#endif')
+    parts.append('#include "%s/model/ada_types.h"' % VERIF)
+    parts.append('const char *g_p; const char *g_q; size_t g_k; size_t g_k2; uint32_t g_max_input_length;\n#ifdef BUF_N\nchar g_buf[BUF_N], g_buf2[BUF_N];\n#endif')
     parts.append('#ifdef CANARY\n#define CANARY_POINT __CPROVER_assert(0, "canary: this point must be reachable")\n#else\n#define CANARY_POINT ((void)0)\n#endif')
+    # specification code (spec/*.h) is not the program under verification: no standard checks inside it
+    parts.append('#pragma CPROVER check push\n#pragma CPROVER check disable "bounds"\n#pragma CPROVER check disable "pointer"\n'
+                 '#pragma CPROVER check disable "pointer-overflow"\n#pragma CPROVER check disable "signed-overflow"\n'
+                 '#pragma CPROVER check disable "undefined-shift"\n#pragma CPROVER check disable "div-by-zero"')
     for inc in o.includes:
-        parts.append('#include "%s/%s"' % (VERIF, inc))
+        if inc.startswith('spec/'):
+            parts.append('#include "%s/%s"' % (VERIF, inc))
+    parts.append('#pragma CPROVER check pop')
+    for inc in o.includes:
+        if not inc.startswith('spec/'):
+            parts.append('#include "%s/%s"' % (VERIF, inc))
     parts.append('/* ---- data dumped by the real compiler ---- */')
     parts.append(tables)
     parts.append('/* ---- extracted functions ---- */')
@@ -122,6 +132,7 @@ def build_tu(o, canary=False, witness=False):
     else:
         hp = os.path.join(VERIF, 'harness', o.harness) if not o.harness.startswith('/') and '\n' not in o.harness else None
         htext = open(hp).read() if hp else o.harness
+        htext = re.sub(r'#include "(c\d\d/[^"]+)"', lambda m: open(os.path.join(VERIF, 'harness', m.group(1))).read(), htext)
     parts.append(htext)
     text = '\n'.join(parts) + '\n'
     d = ensure_dir(os.path.join(BUILD, A.tu_hash(o.cfg, o.src) + '_' + o.cfg))
